@@ -76,7 +76,7 @@ def make_input(kind, data, sw, ch, files):
         return files["wav"], dict(large_file=True)
     if kind == "wav_eager":
         return files["wav"], {}
-    if kind == "stdin":
+    if kind.startswith("stdin"):
         return "-", kw
     raise ValueError(kind)
 
@@ -99,8 +99,9 @@ def build_reader(kind, data, sw, ch, files, block_dur, hop_dur, max_read, record
     L = lib()
     inp, kw = make_input(kind, data, sw, ch, files)
     old = sys.stdin
-    if kind == "stdin":
-        sys.stdin = FakeStdin(data)
+    if kind.startswith("stdin"):
+        chunks = [int(x) for x in kind.split(":")[1].split(",")] if ":" in kind else None
+        sys.stdin = FakeStdin(data, chunks)
     try:
         if cls == "Recorder":
             return L["util"].Recorder(inp, block_dur=block_dur, hop_dur=hop_dur, max_read=max_read, **kw)
@@ -154,7 +155,8 @@ def max_reads(n):
 
 
 def work_c10(task):
-    sw, ch, B, kinds, tier = task
+    global SR
+    sw, ch, B, kinds, tier, SR = task
     lib()
     cov = {"evaluations": 0, "distinct_nontrivial": 0, "traces_validated_against_impl": 0, "states": 0,
            "transitions": 0, "samples": []}
@@ -178,11 +180,11 @@ def work_c10(task):
                     if nb:
                         cov["distinct_nontrivial"] += 1
                     if msg:
-                        key = "reader kind=%s n=%d sw=%d ch=%d block_dur=%r hop_dur=%r max_read=%r" % (
-                            kind, n, sw, ch, bd, hop_dur, mr)
+                        key = "reader rate=%d kind=%s n=%d sw=%d ch=%d block_dur=%r hop_dur=%r max_read=%r" % (
+                            SR, kind, n, sw, ch, bd, hop_dur, mr)
                         if len(viol) < 20:
                             viol.append((key, msg, {"kind": "c10", "source": kind, "n": n, "sw": sw, "ch": ch, "B": B,
-                                                    "block_dur": bd, "H": HH, "hop_dur": hop_dur, "max_read": mr}))
+                                                    "block_dur": bd, "H": HH, "hop_dur": hop_dur, "max_read": mr, "rate": SR}))
         for f in files.values():
             os.unlink(f)
     cov["states"] = cov["evaluations"]
@@ -290,6 +292,8 @@ class RecSys:
 
 
 def work_c19(task):
+    global SR
+    SR = 8
     cfg, d, unpruned = task
     lib()
     res = graph.explore(lambda: RecSys(cfg), d=d, unpruned_depth=unpruned)
@@ -344,12 +348,14 @@ def run(prop, tier):
     if prop == "C10":
         rep = common.Report(prop, tier, "bounded-exhaustive enumeration of (source length x format x block x hop x max_read x "
                             "source kind) with reads past the end, against the by-definition block model")
-        kinds = ["bytes", "buffer", "raw", "wav", "stdin", "wav_eager"]
-        tasks = [(sw, ch, B, kinds, tier) for (sw, ch) in FORMATS for B in (range(1, 5) if quick else range(1, 7))]
+        kinds = ["bytes", "buffer", "raw", "wav", "stdin", "wav_eager", "stdin:1", "stdin:3", "stdin:5,2"]
+        tasks = [(sw, ch, B, kinds, tier, 8) for (sw, ch) in FORMATS for B in (range(1, 6) if quick else range(1, 8))]
+        # a high rate: max_read / block_dur / hop_dur are sub-millisecond values there
+        tasks += [(sw, ch, B, ["bytes", "wav", "stdin", "stdin:3"], tier, 16000) for (sw, ch) in FORMATS[:2] for B in ((2, 3) if quick else (1, 2, 3, 5))]
         rep.cov["rule"] = ("one evaluation = one reader built from one configuration and read to exhaustion plus 3 more "
                            "reads; non-trivial when at least one block is expected; distinct by construction; "
                            "states = configurations, transitions = read() calls compared")
-        rep.cov["bounds"] = {"block_samples": "1..4" if quick else "1..6", "source_len": "0..3*block+2", "formats": FORMATS,
+        rep.cov["bounds"] = {"block_samples": "1..5" if quick else "1..7", "rates": [8, 16000], "source_len": "0..3*block+2", "formats": FORMATS,
                              "kinds": kinds}
         c10_rejections(rep)
         for part in common.pmap(work_c10, tasks):
@@ -384,6 +390,8 @@ def replay(case):
     lib()
     k = case["kind"]
     if k == "c10":
+        global SR
+        SR = case.get("rate", 8)
         data = content(case["n"], case["sw"], case["ch"])
         files = write_files(data, case["sw"], case["ch"], "replay")
         return c10_case(case["source"], case["n"], case["sw"], case["ch"], files, case["B"], case["block_dur"],
